@@ -61,13 +61,16 @@ var _ = reserr.ErrNotFound
 //@   assert[C17] MergeHeader#1: arg0 == old(m.Header) && arg1 == old(o.Header) && arg0 != nil
 //@   safety[C15]
 
-// Value equality: only values of the same kind can be equal (the byte comparison of the
-// encoded values is left to an uninterpreted relation).
+// Value equality: only values of the same kind can be equal; references are equal exactly
+// when their resource ids are; values that are neither data, primitive nor reference are equal
+// when their kinds are. The relation itself is named by an uninterpreted function (definition).
 //@ func Value.Equal
-//@   trusted
-//@   ensures result == ufBool_valeq(v, w)
-//@   ensures v.Type != w.Type ==> !result
+//@   defines result == ufBool_valeq(v, w)
+//@   ensures[C12] v.Type != w.Type ==> !result
+//@   ensures[C12] v.Type == w.Type && (v.Type == ValueTypeReference || v.Type == ValueTypeSoftReference) ==> result == (v.RID == w.RID)
+//@   ensures[C12] v.Type == w.Type && v.Type != ValueTypeReference && v.Type != ValueTypeSoftReference && v.Type != ValueTypeData && v.Type != ValueTypePrimitive ==> result
 //@   assigns nothing
+//@   safety[C15]
 
 // A get response is accepted only with exactly one of model and collection, all values proper.
 //@ func DecodeGetResponse
